@@ -125,7 +125,7 @@ theorem ffwdLoop_spec (o : Nat) (fuel : Nat) : ∀ (b : Buf), WF b → b.rest.le
     by_cases hout : o ≥ b.base + b.n
     · rw [if_pos hout]
       have hwf1 : WF { b with pos := b.n } :=
-        ⟨h.hwin, Nat.le_refl _, fun a ha => Nat.le_trans (h.hanch a ha) hp, h.hps, h.heof, h.hnofp⟩
+        ⟨h.hwin, Nat.le_refl _, h.hanch, h.hps, h.heof, h.hnofp⟩
       have hr := refill_post { b with pos := b.n } 0 hwf1
       have hk := refill_keep { b with pos := b.n } 0 hwf1
       have hlt := refill_ok_lt { b with pos := b.n } 0 hwf1
@@ -165,11 +165,6 @@ theorem sim_setOffset (P : Nat) (o : Nat) : SimStep P (.setOffset o) := by
       (a.cur ≤ o ∨ ∃ A, a.anchor = some A ∧ A ≤ o) := hv
   have hvle : o ≤ a.src.length := by rcases hvend with h | h <;> omega
   have hp := r.wf.hpos
-  have hA : ∀ A, a.anchor = some A → A ≤ o := by
-    intro A hA
-    rcases hvalt with h | ⟨A', hA', hle⟩
-    · have := (r.aanch A hA).1; omega
-    · rw [hA] at hA'; cases hA'; exact hle
   have es : specStep a (.setOffset o) = (⟨.ok, [], o⟩, { a with cur := o, lastp := none }) := rfl
   rw [es]
   -- generic conclusion from an explicit result
@@ -184,7 +179,7 @@ theorem sim_setOffset (P : Nat) (o : Nat) : SimStep P (.setOffset o) := by
       rw [if_neg (by intro hh; cases hh), ho, hb, hc]
     · exact r.of_keepA' (s' := (s.step (.setOffset o)).2) (a' := { a with cur := o, lastp := none })
         (by rw [hb]; exact w) (by rw [hb]; exact pg) (by rw [hb]; exact k.toKeepA) (by rw [hb]; exact r.aok.keep k)
-        rfl rfl rfl (by rw [hb]; exact hc) hA
+        rfl rfl rfl (by rw [hb]; exact hc)
         (by rw [step_lastp]; show (setOffset s.b o).1.p = none; exact setOffset_p _ _) rfl
   by_cases hm : memMode s.b.mode
   · -- whole input in memory
@@ -211,16 +206,14 @@ theorem sim_setOffset (P : Nat) (o : Nat) : SimStep P (.setOffset o) := by
       | true => rfl
       | false => exact absurd (r.modefp.mp hh) hm
     obtain ⟨r1, r2⟩ := r.anch hf
-    have hAc : ∀ A, s.b.absAnchor = some A → A ≤ o := by intro A hh; rw [r1] at hh; exact hA A hh
     rw [show (s.step (.setOffset o)) = (s.step (.setOffset o)) from rfl]
     have est := setOffset_stream s.b o hm
     by_cases hwin : s.b.base ≤ o ∧ o < s.b.base + s.b.pos
     · -- rewind inside the window
       have e : setOffset s.b o = (({ st := .ok } : Out), { s.b with pos := o - s.b.base }) := by
         rw [est]; unfold setOffsetStream; rw [if_pos hwin]
-      have hanc := anchor_le_of_abs (b := s.b) (o - s.b.base) (by intro A hh; have := hAc A hh; omega)
       refine fin _ e ?_ ?_ (setpos_keep s.b _) (by show s.b.base + (o - s.b.base) = o; omega)
-      · exact ⟨r.wf.hwin, by show o - s.b.base ≤ s.b.n; omega, hanc, r.wf.hps, r.wf.heof, r.wf.hnofp⟩
+      · exact ⟨r.wf.hwin, by show o - s.b.base ≤ s.b.n; omega, r.wf.hanch, r.wf.hps, r.wf.heof, r.wf.hnofp⟩
       · rcases r.pg with g | g
         · left; show s.b.pagesize ≤ s.b.n - (o - s.b.base); omega
         · right; exact g
@@ -282,9 +275,8 @@ theorem sim_setOffset (P : Nat) (o : Nat) : SimStep P (.setOffset o) := by
         simp only [] at f1 f2 f3 f4 f5
         subst f1
         have hp' := f2.hpos
-        have hancf := anchor_le_of_abs (b := bf) (o - bf.base) (by intro A hh; rw [f3.anch] at hh; have := hAc A hh; omega)
         have w2 : WF { bf with pos := o - bf.base } :=
-          ⟨f2.hwin, by show o - bf.base ≤ bf.n; omega, hancf, f2.hps, f2.heof, f2.hnofp⟩
+          ⟨f2.hwin, by show o - bf.base ≤ bf.n; omega, f2.hanch, f2.hps, f2.heof, f2.hnofp⟩
         have hr := refill_post { bf with pos := o - bf.base } 0 w2
         have hk := refill_keep { bf with pos := o - bf.base } 0 w2
         have hst : ¬ ((refill { bf with pos := o - bf.base } 0).1 ≠ .eof ∧ (refill { bf with pos := o - bf.base } 0).1 ≠ .ok) := by
